@@ -6,6 +6,7 @@ pure_utils.{location_within,quote,unquote,count_iter_items}, emitter_utils.inter
 """
 from lib import prelude  # noqa: F401
 from lib.ob import Ob
+from lib.domain import fixlen
 
 from doctrans.defaults_utils import extract_default, set_default_doc
 from doctrans.emitter_utils import interpolate_defaults
@@ -66,6 +67,7 @@ def prose_ok(p, alphabet):
 # ------------------------------------------------------------------ bodies
 def int_text(phrase_idx, tail, typ, s):
     """text 'x. <phrase><s><tail>' must yield the int that s renders, for both removal modes"""
+    s = fixlen(s)
     line = "x. " + PHRASES[phrase_idx] + s + tail
     want = int(s)
     doc, d = extract_default(line, typ=typ, emit_default_doc=True)
@@ -99,6 +101,7 @@ def _norm(p):
 
 def codec_int(typ, p, d):
     """set_default_doc then interpolate_defaults: int default, symbolic prose"""
+    p = fixlen(p)
     _, q = set_default_doc(("a", {"doc": p, "default": d, **({"typ": typ} if typ else {})}))
     text = q["doc"]
     _, r = interpolate_defaults(("a", {"doc": text, **({"typ": typ} if typ else {})}), emit_default_doc=True)
@@ -109,6 +112,7 @@ def codec_int(typ, p, d):
 
 
 def codec_bool(typ, p, b):
+    p = fixlen(p)
     _, q = set_default_doc(("a", {"doc": p, "default": b, **({"typ": typ} if typ else {})}))
     text = q["doc"]
     _, r = interpolate_defaults(("a", {"doc": text, **({"typ": typ} if typ else {})}), emit_default_doc=True)
@@ -120,6 +124,7 @@ def codec_bool(typ, p, b):
 
 def codec_str(typ, p, s):
     """str default (typ None: written bare; typ str/Optional[str]: written quoted)"""
+    s = fixlen(s)
     _, q = set_default_doc(("a", {"doc": p, "default": s, **({"typ": typ} if typ else {})}))
     text = q["doc"]
     _, r = interpolate_defaults(("a", {"doc": text, **({"typ": typ} if typ else {})}), emit_default_doc=True)
@@ -134,6 +139,7 @@ CODE_POOL = ("```(np.empty(0), np.empty(0))```", "```[]```", "```foo.bar()```", 
 
 def codec_code(i, p):
     """code-quoted default: comes back as the same expression text (back-ticks are presentation)"""
+    p = fixlen(p)
     d = CODE_POOL[i]
     _, q = set_default_doc(("a", {"doc": p, "default": d}))
     text = q["doc"]
@@ -153,7 +159,7 @@ WORDS = ("default", "Default", "defaults", "Defaults", "by default", "DEFAULT")
 
 def untouched(w, pre_, post_):
     """prose that contains a 'default' word without announcing a value is never altered"""
-    doc = pre_ + WORDS[w] + post_
+    doc = fixlen(pre_) + WORDS[w] + fixlen(post_)
     d1, v1 = extract_default(doc, emit_default_doc=True)
     d2, v2 = extract_default(doc, emit_default_doc=False)
     _, q = set_default_doc(("a", {"doc": doc}), emit_default_doc=True)
